@@ -6,6 +6,12 @@ Line protocol of the allocation-protocol model (implementation side: harness/c/c
       SCEN: makedata copydata copymodel loadmodel savemodel     REGIME: longjmp | returning
       VARIANT: asis | trymalloc        FAILSET: 0-based mju_malloc call indices, comma separated, or "-"
       sizes: the block sizes in allocation order (3 for mjData scenarios, 2 otherwise)
+      SCEN compile (5 sizes: mjModel, its buffer, mjData, its buffer, arena): mj_compile + the caller's
+      mj_deleteModel; always under the compiler's own longjmp-ing handler (REGIME is ignored, the handler
+      invocation is not an event of the trace); ` err=0|1` is appended (1 = mj_compile returned NULL)
+  skeleton NAME     the allocation / initialisation / publication skeleton of the programs the theorems are
+      about (compared with what translate/c21_protocol.py extracts from the C / C++ text of the tree);
+      NAME: mj_makeModel mj_makeRawData mj_deleteModel mj_deleteData compile compile_catch
 output: trace=<a<size>|x<size>|f<id>|E|W,…> out=<returned|jumped|FAULT> live=<ids|-|?>
 -/
 open MjProof MjProof.Driver MjProof.AllocProtocol
@@ -36,10 +42,77 @@ def scenario (name : String) (vt : Variant) (sz : List Nat) : Option Scenario :=
   | "savemodel", [a, b] => some (saveModel vt a b)
   | _, _ => none
 
+def showVar : Var → String
+  | .m => "m" | .mbuf => "m.buffer" | .d => "d" | .dbuf => "d.buffer" | .darena => "d.arena"
+  | .tmp => "tmp" | .vfs => "vfs" | .loc => "local" | .cm => "model" | .cd => "data"
+
+def showFld : Fld → String
+  | .buffer => "buffer" | .arena => "arena" | .threadpool => "threadpool" | .nplugin => "nplugin"
+
+def showExit : Exit → String
+  | .error => "error"
+  | .warnReturn => "warnreturn"
+  | .warnFreeReturn after => "warnfreereturn[" ++ ",".intercalate (after.map showVar) ++ "]"
+
+/-- the steps that have a counterpart the translator can extract (`use` steps and the store that is part
+    of an allocating statement are not printed). -/
+def showStep : Step → Option String
+  | .alloc v _ _ => some s!"alloc {showVar v}"
+  | .ifNull v cl e => some s!"ifnull {showVar v} [{",".intercalate (cl.map showVar)}] {showExit e}"
+  | .use _ => none
+  | .useIfSet _ _ => none
+  | .free v => some s!"free {showVar v}"
+  | .ret v => some s!"return {showVar v}"
+  | .setFld v f none => some s!"set {showVar v}.{showFld f} 0"
+  | .setFld _ _ (some _) => none
+  | .zeroAll v => some s!"zero {showVar v}"
+  | .readFld v f => some s!"read {showVar v}.{showFld f}"
+  | .freeFld v f => some s!"free {showVar v}.{showFld f}"
+  | .publish c v => some s!"publish {showVar c} {showVar v}"
+  | .clearPub c => some s!"clear {showVar c}"
+
+def showSteps (l : List Step) : String := " | ".intercalate (l.filterMap showStep)
+
+def skeleton (name : String) : Option String :=
+  match name with
+  | "mj_makeModel" => some (showSteps (makeModelBody .asIs 1 1 .loc))
+  | "mj_makeRawData" => some (showSteps (makeRawDataBody .asIs 1 1 1 .loc))
+  | "mj_deleteModel" => some (showSteps (deleteModelOf .m))
+  | "mj_deleteData" => some (showSteps (deleteDataOf .d))
+  | "compile" => some (showSteps (compile .asIs 1 1 1 1 1).body)
+  | "compile_catch" =>
+    match (compile .asIs 1 1 1 1 1).onJump with
+    | some c => some (" | ".intercalate (c.map fun (v, prog) => s!"ifset {showVar v} | {showSteps prog}"))
+    | none => none
+  | _ => none
+
+def showTrace (tr : List Ev) : String := ",".intercalate (tr.reverse.map showEv)
+
+def handleCompile (variant fs : String) (sizes : List Nat) : String :=
+  let v? : Option Variant := if variant == "asis" then some .asIs else if variant == "trymalloc" then some .tryMalloc else none
+  match v?, parseFailset fs, sizes with
+  | some v, some fl, [a, b, c, d, e] =>
+    let res := exec .longjmp (fun k => fl.contains k) (compile v a b c d e)
+    let tr := showTrace (res.2.trace.filter (· != .E))
+    match res.1 with
+    | .fault _ => s!"trace={tr} out=FAULT live=?"
+    | .jumped => "bad-op"
+    | o =>
+      let live := res.2.live.foldr insertSorted []
+      let ls := if live.isEmpty then "-" else ",".intercalate (live.map toString)
+      let err := match o with | .caught => 1 | _ => 0
+      s!"trace={tr} out=returned live={ls} err={err}"
+  | _, _, _ => "bad-op"
+
 def handle (line : String) : String :=
+  match words line with
+  | ["skeleton", name] => (skeleton name).getD "bad-op"
+  | _ =>
   match line.splitOn "|" with
   | [head, szs] =>
     match words head, (words szs).mapM parseNat with
+    | ["run", "compile", regime, variant, fs], some sizes =>
+      if regime == "longjmp" || regime == "returning" then handleCompile variant fs sizes else "bad-op"
     | ["run", scen, regime, variant, fs], some sizes =>
       let r? : Option Regime := if regime == "longjmp" then some .longjmp else if regime == "returning" then some .returning else none
       let v? : Option Variant := if variant == "asis" then some .asIs else if variant == "trymalloc" then some .tryMalloc else none
